@@ -407,6 +407,11 @@ impl<'a> GeneratorState<'a> {
                                 acc_in_use = false;
                                 self.acc_in_use = false;
                             }
+                            ExprType::Nothing => {
+                                return Err(self
+                                    .compiler_state
+                                    .syntax_error("Expression has no value (void function ?)", pos))
+                            }
                             _ => unreachable!(),
                         };
                         match left {
